@@ -56,9 +56,9 @@ def _fixed_changepoints(counts, epochs):
     """
     assert epochs > 0
     Y = np.append(0.0, np.cumsum(counts))
-    Z = Y / Y[-1]
-    z = np.linspace(0, 1, epochs + 1)
-    e = np.searchsorted(Z, z, "right") - 1
+    # boundary k is the last index where Y[i] / Y[-1] <= k / epochs: cross-multiply
+    # so that exact ties are not decided by the rounding of k / epochs
+    e = np.searchsorted(Y * epochs, np.arange(epochs + 1) * Y[-1], "right") - 1
     if e[0] > 0:
         e[0] = 0
     if e[-1] < counts.size:
